@@ -5,6 +5,7 @@ import (
 	"errors"
 	"fmt"
 
+	"github.com/fxamacker/cbor/v2"
 	"github.com/taurusgroup/multi-party-sig/internal/bip32"
 	"github.com/taurusgroup/multi-party-sig/internal/ot"
 	"github.com/taurusgroup/multi-party-sig/internal/params"
@@ -58,7 +59,7 @@ func (c *ConfigReceiver) Derive(adjust curve.Scalar, newChainKey []byte) (*Confi
 
 // DeriveChild adjusts the shares to represent the derived public key at a certain index.
 //
-// This will panic if the group is not curve.Secp256k1
+// # This will panic if the group is not curve.Secp256k1
 //
 // This derivation works according to BIP-32, see:
 // https://github.com/bitcoin/bips/blob/master/bip-0032.mediawiki
@@ -177,7 +178,7 @@ func (c *ConfigSender) Derive(adjust curve.Scalar, newChainKey []byte) (*ConfigS
 
 // DeriveChild adjusts the shares to represent the derived public key at a certain index.
 //
-// This will panic if the group is not curve.Secp256k1
+// # This will panic if the group is not curve.Secp256k1
 //
 // This derivation works according to BIP-32, see:
 // https://github.com/bitcoin/bips/blob/master/bip-0032.mediawiki
@@ -191,4 +192,62 @@ func (c *ConfigSender) DeriveBIP32(i uint32) (*ConfigSender, error) {
 		return nil, err
 	}
 	return c.Derive(scalar, newChainKey)
+}
+
+// configReceiverAlias / configSenderAlias have the fields of the configs but none of their methods,
+// so that they decode with cbor's default struct decoding.
+type (
+	configReceiverAlias ConfigReceiver
+	configSenderAlias   ConfigSender
+)
+
+// validateStored checks what a stored Doerner key share must satisfy.
+func validateStored(setupPresent bool, secretShare curve.Scalar, public curve.Point, chainKey []byte) error {
+	if !setupPresent {
+		return errors.New("config: OT setup is missing")
+	}
+	if secretShare == nil || secretShare.IsZero() {
+		return errors.New("config: secret share is missing or zero")
+	}
+	if public == nil || public.IsIdentity() {
+		return errors.New("config: public key is missing or the identity")
+	}
+	if len(chainKey) != 0 && len(chainKey) != params.SecBytes {
+		return fmt.Errorf("config: chain key of %d bytes", len(chainKey))
+	}
+	return nil
+}
+
+// UnmarshalCBOR decodes a stored ConfigReceiver (created with EmptyConfigReceiver, so that the
+// group is known) and refuses material that cannot be a key share.
+func (c *ConfigReceiver) UnmarshalCBOR(data []byte) (err error) {
+	defer func() {
+		if p := recover(); p != nil {
+			err = fmt.Errorf("config: malformed encoding: %v", p)
+		}
+	}()
+	if c.SecretShare == nil || c.Public == nil {
+		return errors.New("config must be initialized using EmptyConfigReceiver")
+	}
+	if err = cbor.Unmarshal(data, (*configReceiverAlias)(c)); err != nil {
+		return err
+	}
+	return validateStored(c.Setup != nil, c.SecretShare, c.Public, c.ChainKey)
+}
+
+// UnmarshalCBOR decodes a stored ConfigSender (created with EmptyConfigSender, so that the
+// group is known) and refuses material that cannot be a key share.
+func (c *ConfigSender) UnmarshalCBOR(data []byte) (err error) {
+	defer func() {
+		if p := recover(); p != nil {
+			err = fmt.Errorf("config: malformed encoding: %v", p)
+		}
+	}()
+	if c.SecretShare == nil || c.Public == nil {
+		return errors.New("config must be initialized using EmptyConfigSender")
+	}
+	if err = cbor.Unmarshal(data, (*configSenderAlias)(c)); err != nil {
+		return err
+	}
+	return validateStored(c.Setup != nil, c.SecretShare, c.Public, c.ChainKey)
 }
